@@ -138,7 +138,7 @@ func genCfg(t *rapid.T, inmem bool) cfg {
 		c.slot = 8
 		return c
 	}
-	c.slot = rapid.SampledFrom([]int{2, 2, 4, 4, 6, 8, 10, 16, 32}).Draw(t, "slot")
+	c.slot = rapid.SampledFrom([]int{2, 2, 3, 4, 4, 5, 6, 7, 8, 9, 10, 16, 32}).Draw(t, "slot")
 	c.balance = rapid.Bool().Draw(t, "balance")
 	c.useFunc = rapid.Bool().Draw(t, "cmpFunc")
 	return c
